@@ -115,7 +115,8 @@ pub fn run_all(ctx: &mut Ctx, stream: &str) {
 			SkipOrders, Vec<SkipOrders>, Option<SkipOrders>,
 			OneAndSkipped, Vec<OneAndSkipped>, [OneAndSkipped; 3], VecDeque<OneAndSkipped>, Box<OneAndSkipped>, OneAligned, Vec<OneAligned>, [OneAligned; 2],
 			MixedDisc, Vec<MixedDisc>, (MixedDisc,), Box<MixedDisc>, [MixedDisc; 4], BigGen<u8>, BigGen<u64>, Vec<BigGen<u8>>, Option<BigGen<u64>>,
-			TrailingComma, Vec<TrailingComma>, TrailingCommaE, Option<TrailingCommaE>, TailEmpty, TailEmptyE, IdxEnum, LitIndex, Vec<LitIndex>);
+			TrailingComma, Vec<TrailingComma>, TrailingCommaE, Option<TrailingCommaE>, TailEmpty, TailEmptyE, IdxEnum, LitIndex, Vec<LitIndex>,
+			Wide17, Vec<Wide17>, WideVariant, Option<WideVariant>);
 		nomem!(ctx, stream, f; NonPathAs, Vec<NonPathAs>, SingleNonPathAs, Box<SingleNonPathAs>);
 		return;
 	}
@@ -161,6 +162,9 @@ pub fn run_all(ctx: &mut Ctx, stream: &str) {
 		Arc<Option<u32>>, Arc<Compact<u64>>, Arc<MelEnum>, [Arc<Option<u8>>; 2], (u8, Box<Arc<Compact<u16>>>), Range<Arc<Option<u8>>>, Rc<Option<u16>>, Box<Result<u8, u64>>,
 		[Compact<u128>; 2], Box<Compact<u128>>, [Compact<u64>; 2], Rc<Compact<u32>>, [Compact<u16>; 3], Arc<Compact<u8>>, Box<[Compact<u128>; 1]>,
 		TailEmpty, Box<TailEmpty>, TailEmptyE, Vec<TailEmptyE>, (u8, TailEmpty),
+		Wide17, Vec<Wide17>, WideVariant, Option<WideVariant>, [Wide17; 2],
+		// a tuple whose leading elements encode to exactly 128 bytes, followed by a tag byte
+		([u8; 64], [u8; 32], [u8; 32], Option<u32>), ([u8; 64], [u16; 32], Compact<u32>, u8), ([u8; 127], u8, Result<u8, u8>),
 		TrailingComma, Vec<TrailingComma>, TrailingCommaE, Option<TrailingCommaE>,
 		LitIndex, Vec<LitIndex>, [LitIndex; 4], Option<LitIndex>, LinkedList<Range<Duration>>, BTreeMap<u8, RangeInclusive<Duration>>, LinkedList<[u32; 2]>, BTreeMap<u8, Range<u64>>,
 		// user-defined wrappers relying on the provided `decode_wrapped` (the model's `wrap`)
